@@ -66,6 +66,8 @@ static int cb_of = -1;                    /* handle whose callback the loop thre
 static int closing_now = -1;              /* handle whose uv_close is in progress */
 static uint64_t efd_count;
 static uint64_t efd_cap;                  /* cfg cap=<n>: the simulated counter saturates here (write -> EAGAIN); 0 = never */
+static int spin_n, sp_left;                /* cfg spin=<N>: once per run the closing loop thread takes N consecutive uv__async_spin iterations
+                                            * (real atomic_load(busy) != 0, uv__cpu_relax, sched_yield) while the sender inside the busy section is frozen */
 static int stop_budget, st_left;           /* cfg stop=<n>: uv_stop() calls from inside async callbacks per run; uv_run then returns and is run again */
 static int fork_budget, fk_left;           /* cfg fork=<n>: fork()+uv_loop_fork() events per run; the run continues in the child */
 static int dead[MAXS];                    /* sender threads that were inside uv_async_send at fork time: they do not exist in the child */
@@ -294,7 +296,7 @@ static void sender_fn(int id) {
 typedef struct { char kind; int arg; } tok_t;    /* 's' t | 'e' t (write of sender t answers EINTR) | 'i' (loop's read answers EINTR) | 'l' | 'k' (fork, continue in the child) | 'x' (uv_stop() inside the current async callback) | 'c' h | 'f' */
 
 static void tok_str(tok_t k, char* b) {
-  if (k.kind == 'l' || k.kind == 'f' || k.kind == 'i' || k.kind == 'k' || k.kind == 'x') sprintf(b, "%c", k.kind); else sprintf(b, "%c%d", k.kind, k.arg);
+  if (k.kind == 'l' || k.kind == 'f' || k.kind == 'i' || k.kind == 'k' || k.kind == 'x' || k.kind == 'p') sprintf(b, "%c", k.kind); else sprintf(b, "%c%d", k.kind, k.arg);
 }
 
 static int sender_midsend(int t) { return !dead[t] && !sched_done(t + 1) && sched_t[t + 1].kind != K_BEGIN; }
@@ -323,6 +325,7 @@ static int enabled_set(tok_t* out) {
     if (lrun) { out[n].kind = 'l'; out[n++].arg = 0; }
     if (fk_left > 0 && lt->kind == K_WAIT) { out[n].kind = 'k'; out[n++].arg = 0; }
     if (st_left > 0 && lt->kind == K_INCB && L->stop_flag == 0) { out[n].kind = 'x'; out[n++].arg = 0; }
+    if (sp_left > 0 && lt->kind == K_LOAD && is_busy(lt->addr) && *(volatile int*) lt->addr != 0) { out[n].kind = 'p'; out[n++].arg = 0; }
     if (lt->kind == K_WAIT || lt->kind == K_INCB)
       for (h = 0; h < nh; h++)
         if (closable[h] && !closing_f[h]) { out[n].kind = 'c'; out[n++].arg = h; }
@@ -408,7 +411,7 @@ static const char* state_str(void) {
     else if (st->kind != K_BEGIN && st->kind != SCHED_K_DONE) { sprintf(ob, "k%d", st->kind); pc = ob; }
     p += sprintf(p, " t%d:%s,h%d,k%d,q%d", t, pc, S[t].h, S[t].k, S[t].seq);
   }
-  p += sprintf(p, " | ei=%d fk=%d st=%d sf=%d en=", ei_left, fk_left, st_left, (int) L->stop_flag);
+  p += sprintf(p, " | ei=%d fk=%d st=%d sf=%d sp=%d en=", ei_left, fk_left, st_left, (int) L->stop_flag, sp_left);
   n = enabled_set(en);
   for (t = 0; t < n; t++) { tok_str(en[t], b); p += sprintf(p, "%s%s", t ? "," : "", b); }
   return statebuf;
@@ -450,7 +453,7 @@ static void start_run(void) {
   memset(closing_f, 0, sizeof closing_f); memset(unlinked, 0, sizeof unlinked); memset(freed, 0, sizeof freed); memset(released, 0, sizeof released);
   memset(pub, 0, sizeof pub); memset(seen, 0, sizeof seen); memset(cbs, 0, sizeof cbs);
   memset(eff, 0, sizeof eff); memset(completed, 0, sizeof completed); memset(S, 0, sizeof S);
-  cb_of = closing_now = -1; efd_count = 0; ei_left = eintr_budget; fk_left = fork_budget; st_left = stop_budget; L->stop_flag = 0; memset(dead, 0, sizeof dead); viol[0] = 0; pathlen = 0; effbuf[0] = 0;
+  cb_of = closing_now = -1; efd_count = 0; ei_left = eintr_budget; fk_left = fork_budget; st_left = stop_budget; L->stop_flag = 0; sp_left = spin_n > 0; memset(dead, 0, sizeof dead); viol[0] = 0; pathlen = 0; effbuf[0] = 0;
   for (h = 0; h < nh; h++) {
     H[h] = malloc(sizeof(uv_async_t));
     if (uv_async_init(L, H[h], async_cb)) { fprintf(stderr, "uv_async_init failed\n"); exit(3); }
@@ -516,6 +519,13 @@ static int do_tok(tok_t k, int print) {
   else if (k.kind == 'i') { ei_left--; sched_step(0, CMD_EINTR); }
   else if (k.kind == 'k') { fk_left--; sched_step(0, CMD_FORK); }
   else if (k.kind == 'x') { st_left--; sched_step(0, CMD_STOP); }
+  else if (k.kind == 'p') {
+    /* bounded unfairness: the loop thread spins spin_n times in a row; correct code is still parked at the same load */
+    sched_thread* lt = &sched_t[0];
+    sp_left--;
+    for (int i = 0; i < spin_n && lt->kind == K_LOAD && is_busy(lt->addr); i++) { effbuf[0] = 0; sched_step(0, CMD_STEP); }
+    snprintf(effbuf, sizeof effbuf, "spinburst");
+  }
   else if (k.kind == 'l') sched_step(0, CMD_STEP);
   else if (k.kind == 'c') sched_step(0, CMD_CLOSE + 16 * k.arg);
   else if (k.kind == 'f') sched_step(0, CMD_CLOSECB);
@@ -595,7 +605,7 @@ static void rand_runs(uint64_t seed, int runs) {
       if (n == 0) break;
       /* close / close-callback choices are taken less often; a chosen thread tends to keep running for a while
          and then get preempted (preemption inside the few-instruction windows is the point) */
-      for (i = 0; i < n; i++) { w[i] = (en[i].kind == 'c' || en[i].kind == 'f' || en[i].kind == 'e' || en[i].kind == 'i' || en[i].kind == 'k') ? 1 : (en[i].kind == 'x') ? 3 : 4; if (i == sticky) w[i] += 6; tot += w[i]; }
+      for (i = 0; i < n; i++) { w[i] = (en[i].kind == 'c' || en[i].kind == 'f' || en[i].kind == 'e' || en[i].kind == 'i' || en[i].kind == 'k') ? 1 : (en[i].kind == 'x' || en[i].kind == 'p') ? 3 : 4; if (i == sticky) w[i] += 6; tot += w[i]; }
       x = rnd() % tot;
       for (i = 0; i < n; i++) { if (x < (uint64_t) w[i]) break; x -= w[i]; }
       sticky = (rnd() % 3 == 0) ? -1 : i;
@@ -609,7 +619,7 @@ static void rand_runs(uint64_t seed, int runs) {
 
 static int parse_tok(const char* w, tok_t* k) {
   k->kind = w[0]; k->arg = 0;
-  if (w[0] == 'l' || w[0] == 'f' || w[0] == 'i' || w[0] == 'k' || w[0] == 'x') return w[1] == 0;
+  if (w[0] == 'l' || w[0] == 'f' || w[0] == 'i' || w[0] == 'k' || w[0] == 'x' || w[0] == 'p') return w[1] == 0;
   if ((w[0] == 's' || w[0] == 'c' || w[0] == 'e') && w[1] >= '0' && w[1] <= '9' && w[2] == 0) { k->arg = w[1] - '0'; return 1; }
   return 0;
 }
@@ -619,7 +629,7 @@ static void parse_cfg(char* line) {
   snprintf(cfgline, sizeof cfgline, "%s", line);
   cfgline[strcspn(cfgline, "\r\n")] = 0;
   for (char* p = strtok(line, " \t\r\n"); p && n < 16; p = strtok(NULL, " \t\r\n")) w[n++] = p;
-  nh = ns = 0; free_in_cb = 0; eintr_budget = 0; efd_cap = 0; fork_budget = 0; stop_budget = 0; memset(closable, 0, sizeof closable); memset(nprog, 0, sizeof nprog);
+  nh = ns = 0; free_in_cb = 0; eintr_budget = 0; efd_cap = 0; fork_budget = 0; stop_budget = 0; spin_n = 0; memset(closable, 0, sizeof closable); memset(nprog, 0, sizeof nprog);
   for (i = 0; i < MAXS; i++) sigvictim[i] = -2;
   for (i = 1; i < n; i++) {
     char* v = strchr(w[i], '=');
@@ -630,6 +640,7 @@ static void parse_cfg(char* line) {
     else if (!strcmp(w[i], "eintr")) eintr_budget = atoi(v);
     else if (!strcmp(w[i], "fork")) fork_budget = atoi(v);
     else if (!strcmp(w[i], "stop")) stop_budget = atoi(v);
+    else if (!strcmp(w[i], "spin")) spin_n = atoi(v);
     else if (!strcmp(w[i], "cap")) efd_cap = (*v == '-') ? 0 : (uint64_t) atoi(v);
     else if (!strcmp(w[i], "close")) { if (*v != '-') for (char* p = v; *p; p++) if (*p >= '0' && *p <= '9' && *p - '0' < MAXH) closable[*p - '0'] = 1; }
     else if (!strcmp(w[i], "senders")) {
